@@ -141,6 +141,18 @@ def c09(tier, seed):
                 for s in ["owner", "pauser", "newowner", "stranger", "engine", "ifund"]:
                     out.append(dict(id="c09-%d" % k, deploy=d, ops=[block(3700), t0, tx(c, m, s, a)]))
                     k += 1
+        # a role obtained in ONE contract gives no right in any other: after each transfer the new holder tries the
+        # privileged operations of every contract
+        cross = [("ifund", "remove_vamm", dict(vamm="vamm1")), ("ifund", "add_vamm", dict(vamm="vamm2")), ("ifund", "withdraw", dict(amount=10)),
+                 ("ifund", "shutdown_vamms", {}), ("engine", "update_config", dict(liqfee=3)), ("engine", "set_pause", dict(pause=True)),
+                 ("engine", "add_whitelist", dict(address="tr3")), ("vamm1", "set_open", dict(open=False)), ("vamm1", "update_config", dict(toll=1)),
+                 ("vamm2", "set_open", dict(open=True)), ("vamm2", "update_owner", dict(owner="stranger")), ("fpool", "send_token", dict(amount=10, recipient="newowner")),
+                 ("fpool", "remove_token", {}), ("feed", "append_price", dict(key="ETH", price=900, t=100000)), ("vamm1", "settle_funding", {}),
+                 ("vamm1", "swap_input", dict(dir="add", amount=500, limit=0, over=False))]
+        for (nm, t0, after) in transfers:
+            for (c, m, a) in cross:
+                out.append(dict(id="c09-%d" % k, deploy=d, ops=[block(3700), t0, tx(c, m, "newowner", a)]))
+                k += 1
     return out
 
 # ------------------------------------------------------------------------------------------------
@@ -1181,7 +1193,10 @@ def combo(tier, seed):
         funding = rng.choice(("none", "owed", "earned"))
         health = rng.choice(("healthy", "under", "water"))
         wallet = rng.choice(("normal", "normal", "emptied")) if not native else "normal"
-        wl = rng.random() < 0.3
+        wl = rng.choice(("none", "none", "tr1", "tr3", "both"))
+        pre = rng.choice(("none", "none", "tr3_trade", "liq_trade"))
+        lev2 = rng.choice((100, 150, 250, 1000))
+        liqr = rng.choice(("liq", "liq", "tr2", "stranger2"))
         gate = rng.choice(("none", "none", "paused", "closed", "unregistered"))
         toll, spread = rng.choice(((0, 0), (5, 10), (1, 0)))
         plr = rng.choice((0, 25, 100))
@@ -1189,8 +1204,12 @@ def combo(tier, seed):
         opk = OPS[k % len(OPS)]
         ff = lambda m, lev=1000: fee_funds(native, m, lev, toll, spread)
         ops = [block(15)]
-        if wl:
+        if wl in ("tr1", "both"):
             ops += [tx("engine", "add_whitelist", "owner", dict(address="tr1"))]
+        if wl in ("tr3", "both"):
+            ops += [tx("engine", "add_whitelist", "owner", dict(address="tr3"))]
+        if liqr == "stranger2":
+            liqr = "tr3"
         ops += [opn("tr1", side, 2500, 1000, funds=ff(2500)), opn("tr3", side, 300, 300, funds=ff(300, 300))]
         if funding != "none":
             # longs owe when the vAMM TWAP is above the oracle TWAP
@@ -1217,12 +1236,16 @@ def combo(tier, seed):
         elif gate == "unregistered":
             ops += [tx("ifund", "remove_vamm", "owner", dict(vamm="vamm1"))]
         ops += [query("engine", "margin_ratio", dict(vamm="vamm1", trader="tr1"))]
+        if pre == "tr3_trade":
+            ops += [opn("tr3", side, 120, 200, funds=ff(120, 200))]
+        elif pre == "liq_trade":
+            ops += [opn("liq", osd, 150, 200, funds=ff(150, 200))]
         if opk == "open_same":
             ops += [opn("tr1", side, 200, 500, funds=ff(200, 500))]
         elif opk == "open_opp_small":
-            ops += [opn("tr1", osd, rng.choice((100, 1000, 2400)), 100)]
+            ops += [opn("tr1", osd, rng.choice((100, 1000, 2400)), lev2)]
         elif opk == "open_opp_big":
-            ops += [opn("tr1", osd, 4000, 1000, funds=ff(4000))]
+            ops += [opn("tr1", osd, 4000 * 1000 // max(lev2, 150), max(lev2, 150), funds=ff(4000 * 1000 // max(lev2, 150), max(lev2, 150)))]
         elif opk == "close":
             ops += [close("tr1")]
         elif opk == "close_limit":
@@ -1233,7 +1256,7 @@ def combo(tier, seed):
         elif opk == "withdraw":
             ops += [tx("engine", "withdraw_margin", "tr1", dict(vamm="vamm1", amount=rng.choice((1, 100))))]
         elif opk == "liq_other":
-            ops += [liq("liq", "tr1"), liq("tr3", "tr1")]
+            ops += [liq(liqr, "tr1"), liq("tr3", "tr1")]
         elif opk == "liq_self":
             ops += [liq("tr1", "tr1")]
         else:
@@ -1262,6 +1285,39 @@ def combo(tier, seed):
             ops += [tx("ifund", "add_vamm", "owner", dict(vamm="vamm1"))]
         ops += [liq("liq", "tr1"), block(15), close("tr1"), close("tr3"), close("tr2"), close("liq")]
         out.append(dict(id="combo-%d" % k, deploy=dep(coll, engine=dict(plr=plr), vamms=[dict(toll=toll, spread=spread, fluct=fluct, period=day)]), ops=ops))
+    return out
+
+def liqseq(tier, seed):
+    """sequences of liquidations by DIFFERENT liquidators in which an earlier one pays no fee (fee ratio zero at the
+    time, or a dust position whose fee rounds to zero) and a later one does: whole and partial, same block and later
+    blocks, fee ratio raised in between"""
+    out = []
+    k = 0
+    for coll in ("cw20", "native"):
+        native = coll == "native"
+        f = lambda m: m if native else 0
+        for plr in (0, 25):
+            for side in ("buy", "sell"):
+                pside = "sell" if side == "buy" else "buy"
+                for how in ("zero_ratio", "dust"):
+                    for gap in (0, 15):
+                        liqfee0 = 0 if how == "zero_ratio" else 2
+                        small = 1500 if how == "zero_ratio" else 12
+                        ops = [block(15), opn("tr1", side, small, 1000 if how == "zero_ratio" else 200, funds=f(small)),
+                               opn("tr3", side, 1200, 1000, funds=f(1200)),
+                               opn("tr2", pside, 5600 if how == "zero_ratio" else 20000, 1000 if how == "zero_ratio" else 100, funds=f(5600 if how == "zero_ratio" else 20000)), block(901),
+                               dict(k="oracle_rel", v="vamm1", off=0, interval=60),
+                               query("engine", "margin_ratio", dict(vamm="vamm1", trader="tr1")),
+                               liq("liq", "tr1"), query("engine", "position", dict(vamm="vamm1", trader="tr1"))]
+                        if how == "zero_ratio":
+                            ops += [tx("engine", "update_config", "owner", dict(liqfee=5))]
+                        if gap:
+                            ops += [block(gap)]
+                        ops += [query("engine", "margin_ratio", dict(vamm="vamm1", trader="tr3")),
+                                liq("sfx", "tr3"), liq("stranger", "tr3"), block(15), liq("sfx", "tr1"), liq("liq", "tr3"),
+                                close("tr1"), close("tr3"), close("tr2")]
+                        out.append(dict(id="liqseq-%d" % k, deploy=dep(coll, trader_bal=5000000, engine=dict(plr=plr, liqfee=liqfee0, imr=10, mmr=5)), ops=ops))
+                        k += 1
     return out
 
 # ------------------------------------------------------------------------------------------------
@@ -2193,7 +2249,7 @@ def noallow(tier, seed):
 
 FAMILIES = ["c02lp", "c04", "c04r", "c04p", "c05", "c06", "c06f", "c07", "c08", "c10", "c16", "c17", "c03",
             "zsr", "zsrliq", "attached", "fundzero", "c07edge", "c14f", "c12hi", "c15sub", "selfliq", "c13flat",
-            "dustliq", "fundbig", "fundempty", "c06t", "closelim", "c17q", "c04prepaid", "c05red", "liqfees", "c02tw", "wdrel", "c15fund", "c16pc", "zeroeq", "twoliq", "spike", "fundrnd", "c12wl", "c11pl", "c10adm", "cfgsweep", "timesweep", "amtsweep", "manyfund", "emptywallet", "flatbook", "c15red", "combo"]
+            "dustliq", "fundbig", "fundempty", "c06t", "closelim", "c17q", "c04prepaid", "c05red", "liqfees", "c02tw", "wdrel", "c15fund", "c16pc", "zeroeq", "twoliq", "spike", "fundrnd", "c12wl", "c11pl", "c10adm", "cfgsweep", "timesweep", "amtsweep", "manyfund", "emptywallet", "flatbook", "c15red", "combo", "liqseq"]
 
 def pool(tier, seed, cap=200, exclude=(), only_cw20=False):
     """a seeded sample across ALL scenario families: every engine property is also judged on the inputs that
@@ -2267,7 +2323,7 @@ def for_property(pid, tier, seed):
         out = [("c15sub", c15sub(tier, seed)), ("c07edge", c07edge(tier, seed)), ("closelim", closelim(tier, seed)), ("c15fund", c15fund(tier, seed)), ("c15full", c15full(tier, seed))]
     if pid == "C18":
         out = [("c18long", c18long(tier, seed)), ("c15sub", c15sub(tier, seed)), ("c15fund", c15fund(tier, seed)), ("c18feedlong", c18feedlong(tier, seed)), ("c10adm", c10adm(tier, seed))]
-    SWEEPS = {'C05': ['cfgsweep', 'amtsweep', 'manyfund', 'emptywallet', 'combo'], 'C06': ['cfgsweep', 'timesweep', 'manyfund', 'combo'], 'C07': ['cfgsweep', 'timesweep', 'manyfund', 'combo'], 'C02': ['cfgsweep', 'timesweep', 'manyfund', 'flatbook', 'combo'], 'C04': ['cfgsweep', 'manyfund', 'emptywallet', 'flatbook', 'combo'], 'C12': ['cfgsweep', 'amtsweep', 'manyfund', 'emptywallet', 'combo'], 'C11': ['cfgsweep', 'timesweep', 'manyfund', 'flatbook', 'combo'], 'C15': ['cfgsweep', 'timesweep', 'c15red'], 'C16': ['timesweep', 'cfgsweep', 'combo'], 'C18': ['timesweep', 'cfgsweep', 'c18sub'], 'C03': ['amtsweep', 'manyfund', 'cfgsweep', 'emptywallet', 'flatbook', 'combo'], 'C17': ['amtsweep', 'cfgsweep'], 'C20': ['cfgsweep'], 'C08': ['timesweep', 'combo'], 'C10': ['timesweep', 'flatbook', 'combo'], 'C01': ['flatbook'], 'C14': ['combo']}
+    SWEEPS = {'C05': ['cfgsweep', 'amtsweep', 'manyfund', 'emptywallet', 'combo'], 'C06': ['cfgsweep', 'timesweep', 'manyfund', 'combo', 'liqseq'], 'C07': ['cfgsweep', 'timesweep', 'manyfund', 'combo', 'liqseq'], 'C02': ['cfgsweep', 'timesweep', 'manyfund', 'flatbook', 'combo'], 'C04': ['cfgsweep', 'manyfund', 'emptywallet', 'flatbook', 'combo'], 'C12': ['cfgsweep', 'amtsweep', 'manyfund', 'emptywallet', 'combo'], 'C11': ['cfgsweep', 'timesweep', 'manyfund', 'flatbook', 'combo'], 'C15': ['cfgsweep', 'timesweep', 'c15red'], 'C16': ['timesweep', 'cfgsweep', 'combo', 'liqseq'], 'C18': ['timesweep', 'cfgsweep', 'c18sub'], 'C03': ['amtsweep', 'manyfund', 'cfgsweep', 'emptywallet', 'flatbook', 'combo', 'liqseq'], 'C17': ['amtsweep', 'cfgsweep'], 'C20': ['cfgsweep'], 'C08': ['timesweep', 'combo', 'liqseq'], 'C10': ['timesweep', 'flatbook', 'combo'], 'C01': ['flatbook'], 'C14': ['combo']}
     for fam in SWEEPS.get(pid, []):
         out.append((fam, globals()[fam](tier, seed)))
     if pid in ENGINE_PROPS:
